@@ -1538,6 +1538,9 @@ func (e *Engine) ifaceEq(x, y Iface) Bool {
 	if !types.Identical(x.T, y.T) {
 		return Bool{V: false}
 	}
+	if !types.Comparable(x.T) { // the run-time panic of == on interfaces holding slices, maps or funcs
+		e.goPanicStr("comparing uncomparable type " + x.T.String())
+	}
 	return e.binop(token.EQL, x.T, x.V, y.V).(Bool)
 }
 
